@@ -231,7 +231,9 @@ func TestC15_SignVerify(t *testing.T) {
 		case 9: // bad base64
 			i := rapid.IntRange(0, 2).Draw(t, "segment")
 			s2 := append([]string{}, seg...)
-			s2[i] = s2[i] + rapid.SampledFrom([]string{"=", "*", "+", " "}).Draw(t, "badChar")
+			bc := rapid.SampledFrom([]string{"\n", "=", "*", "+", " ", "\r\n"}).Draw(t, "badChar")
+			pos := rapid.IntRange(0, len(s2[i])).Draw(t, "badPos")
+			s2[i] = s2[i][:pos] + bc + s2[i][pos:]
 			bad, label = strings.Join(s2, "."), "bad-base64"
 		case 10: // unsupported / mismatching key description
 			kk := *jwk
